@@ -72,6 +72,12 @@ def midi_to_note_sequence(midi_data):
                                 (sys.exc_info()[0], sys.exc_info()[1]))
   # pylint: enable=bare-except
 
+  if midi.resolution <= 0:
+    # SMPTE time division (top bit of the header's division word set) is read as
+    # a negative ticks-per-beat value, which yields negative event times.
+    raise MIDIConversionError(
+        'Unsupported MIDI time division (resolution %d)' % midi.resolution)
+
   sequence = music_pb2.NoteSequence()
 
   # Populate header.
